@@ -255,7 +255,7 @@ def gen_case(rng):
     parent = ctx["parent"]
     literal = rng.random() < 0.5
     chomp = rng.choice("sck")
-    explicit = rng.choice([0, 0, 0, 1, 1, 2, 2, 3, 4, 5, 7, 9])
+    explicit = rng.choice([0, 0, 0, 0, 0, 0, 0, 1, 1, 2, 2, 3, 4, 5, 6, 7, 8, 9])
     if explicit:
         n = explicit if parent < 0 else parent + explicit
     else:
@@ -278,8 +278,6 @@ def gen_case(rng):
              prefix=ctx["prefix"], hc=rng.choice(HCS), raw=raw, eof=eof,
              brk=rng.choice([0, 0, 0, 0, 0, 0, 1, 2]), before=ctx["before"], after=after, ctx=ctx["kind"],
              depth=len(ctx["levels"]))
-    if "\u0085" in "".join(s for _, s in raw) and False:
-        pass
     return c
 
 
